@@ -219,3 +219,126 @@ Proof.
         exfalso. apply (Hn eq_refl). left. reflexivity.
       * intros Hmn Hin. apply Hn; simpl; auto.
 Qed.
+
+(* ---- in the domain the rewriter does not raise UsageError *)
+Lemma dom_no_usage_all : forall p,
+  (forall e, dom p e = true -> usage_err p e = false) /\
+  (forall es, dom_list p es = true -> usage_err_list p es = false) /\
+  (forall a, dom_args p a = true -> usage_err_args p a = false) /\
+  (forall a, dom_kws p a = true -> usage_err_kws p a = false).
+Proof.
+  intros p. apply expr_mutind; intros; simpl in *; try reflexivity; bsplit;
+    repeat match goal with IH : ?c = true -> _ = false, Hc : ?c = true |- _ => rewrite (IH Hc); clear IH end;
+    try reflexivity; try assumption.
+  - (* ECall *)
+    destruct (site p f) eqn:Es; [destruct (has_star ar)|]; bsplit;
+      repeat match goal with IH : ?c = true -> _ = false, Hc : ?c = true |- _ => rewrite (IH Hc); clear IH end; reflexivity.
+  - (* ENamed *)
+    match goal with Hb : binder_ok _ _ = true |- _ => destruct (binder_ok_user _ _ Hb) as (i & -> & _ & _); simpl in Hb; bsplit end.
+    simpl. repeat match goal with H : is_sym _ _ = false |- _ => rewrite H; clear H end. reflexivity.
+  - (* EComp *)
+    match goal with Hb : binder_ok _ _ = true |- _ => destruct (binder_ok_user _ _ Hb) as (i & -> & _ & _); simpl in Hb; bsplit end.
+    simpl. repeat match goal with H : is_sym _ _ = false |- _ => rewrite H; clear H end. reflexivity.
+Qed.
+
+Lemma dom_rewrite : forall p e, dom p e = true -> rewrite p e = Some (fst (rw p 0 e)).
+Proof. intros p e H. unfold rewrite. rewrite (proj1 (dom_no_usage_all p) e H). reflexivity. Qed.
+
+(* ---- rewriting keeps Python's static rules, except for a call site inside a comprehension iterable (KF-11) *)
+Definition no_tmp_list (cv : list name) : bool := forallb (fun x => negb (is_tmp x)) cv.
+
+Lemma mem_name_tmp : forall cv n k, no_tmp_list cv = true -> mem_name (NTmp n k) cv = false.
+Proof.
+  induction cv; simpl; intros; auto. bsplit. rewrite IHcv by assumption.
+  destruct a; simpl in *; try discriminate; reflexivity.
+Qed.
+
+Lemma valid_list_app : forall it cv a b, valid_list it cv (eapp a b) = valid_list it cv a && valid_list it cv b.
+Proof. induction a; simpl; intros; auto. rewrite IHa. apply andb_assoc. Qed.
+Lemma valid_tmp_args : forall it cv n i a, valid_args it cv (tmp_args n i a) = true.
+Proof. intros it cv n i a. revert i. induction a; simpl; intros; auto. Qed.
+Lemma valid_tmp_kws : forall it cv n a, valid_kws it cv (tmp_kws n a) = true.
+Proof. induction a; simpl; intros; auto. Qed.
+Lemma kw_keys_tmp : forall n a, kw_keys (tmp_kws n a) = kw_keys a.
+Proof. induction a; simpl; intros; auto. rewrite IHa. reflexivity. Qed.
+Lemma kw_keys_rw : forall p a k, kw_keys (fst (rw_kws p k a)) = kw_keys a.
+Proof. induction a; intros; simpl; auto. dlet. nrm. simpl. rewrite IHa. reflexivity. Qed.
+
+Ltac use_hs :=
+  let Hi := fresh "Hi" in
+  intros Hi; match goal with Hh : _ = true -> _ = false |- _ => specialize (Hh Hi); bsplit; assumption end.
+
+Lemma valid_rw_all : forall p,
+  (forall e, dom p e = true -> forall it cv k, no_tmp_list cv = true -> valid_e it cv e = true ->
+      site_in_iter p e = false -> (it = true -> has_site p e = false) -> valid_e it cv (fst (rw p k e)) = true) /\
+  (forall es, dom_list p es = true -> forall it cv k, no_tmp_list cv = true -> valid_list it cv es = true ->
+      site_in_iter_list p es = false -> (it = true -> has_site_list p es = false) -> valid_list it cv (fst (rw_list p k es)) = true) /\
+  (forall a, dom_args p a = true -> forall it cv k, no_tmp_list cv = true -> valid_args it cv a = true ->
+      site_in_iter_args p a = false ->
+      ((it = true -> has_site_args p a = false) -> valid_args it cv (fst (rw_args p k a)) = true) /\
+      (it = false -> forall n i, valid_list it cv (fst (rw_pos p n i k a)) = true)) /\
+  (forall a, dom_kws p a = true -> forall it cv k, no_tmp_list cv = true -> valid_kws it cv a = true ->
+      site_in_iter_kws p a = false ->
+      ((it = true -> has_site_kws p a = false) -> valid_kws it cv (fst (rw_kws p k a)) = true) /\
+      (it = false -> forall n, valid_list it cv (fst (rw_kwparts p n k a)) = true)).
+Proof.
+  intros p. apply expr_mutind; intros; simpl in *; try reflexivity.
+  - (* EAttr *) dlet; nrm; simpl. auto.
+  - (* EBin *) bsplit. dlet; nrm; simpl. rewrite H, H0; auto; use_hs.
+  - (* EBool *) dlet; nrm; simpl. auto.
+  - (* EIf *) bsplit. dlet; nrm; simpl.
+    rewrite H, H0, H1; auto; use_hs.
+  - (* ECall *)
+    destruct (site p f) eqn:Es; [destruct (has_star ar) eqn:Est|]; bsplit; dlet; nrm; simpl.
+    + rewrite kw_keys_rw. rewrite H by (auto; use_hs).
+      destruct (H0 ltac:(assumption) it cv (snd (rw p k f))) as [-> _]; auto; [|use_hs].
+      destruct (H1 ltac:(assumption) it cv (snd (rw_args p (snd (rw p k f)) ar))) as [-> _]; auto.
+      use_hs.
+    + (* handled site: cannot be inside an iterable *)
+      assert (Hit : it = false) by (destruct it; auto; specialize (H7 eq_refl); discriminate).
+      subst it.
+      assert (Hc : forall cn es, valid_list false cv es = true -> valid_list false cv (code_part p cn es) = true).
+      { intros [] es He; simpl; auto. }
+      rewrite Hc.
+      * rewrite kw_keys_tmp. unfold self_arg. destruct (a_method (p_anal p)); simpl; rewrite valid_tmp_args, valid_tmp_kws; simpl; assumption.
+      * rewrite valid_list_app.
+        destruct (H0 ltac:(assumption) false cv (S k)) as [_ ->]; auto.
+        destruct (H1 ltac:(assumption) false cv (snd (rw_pos p k 0 (S k) ar))) as [_ ->]; auto.
+    + rewrite kw_keys_rw. rewrite H by (auto; use_hs).
+      destruct (H0 ltac:(assumption) it cv (snd (rw p k f))) as [-> _]; auto; [|use_hs].
+      destruct (H1 ltac:(assumption) it cv (snd (rw_args p (snd (rw p k f)) ar))) as [-> _]; auto.
+      use_hs.
+  - (* ENamed *) bsplit. dlet; nrm; simpl.
+    match goal with Hb : binder_ok _ _ = true |- _ => destruct (binder_ok_user _ _ Hb) as (i & -> & Hr & _) end.
+    rewrite Hr. rewrite H; auto.
+    repeat match goal with Hx : _ = false |- _ => rewrite Hx end. reflexivity.
+  - (* ELam *) bsplit. dlet; nrm; simpl. rewrite H; auto.
+    repeat match goal with Hx : _ = true |- _ => rewrite Hx end. reflexivity.
+  - (* EComp *) bsplit. dlet; nrm; simpl.
+    match goal with Hb : binder_ok _ _ = true |- _ => destruct (binder_ok_user _ _ Hb) as (i & -> & Hr & _) end.
+    rewrite Hr.
+    assert (Hcv : no_tmp_list (NUser i :: cv) = true) by (simpl; assumption).
+    rewrite H, H0, H1; auto; use_hs.
+  - (* EFstr *) dlet; nrm; simpl. auto.
+  - (* EEffect *) dlet; nrm; simpl. auto.
+  - (* ETuple *) dlet; nrm; simpl. auto.
+  - (* ESub *) bsplit. dlet; nrm; simpl. rewrite H, H0; auto; use_hs.
+  - (* ECons *) bsplit. dlet; nrm; simpl. rewrite H, H0; auto; use_hs.
+  - (* ANil *) split; auto.
+  - (* ACons *) bsplit. split.
+    + intros Hh. dlet; nrm; simpl. rewrite H by (auto; use_hs).
+      destruct (H0 ltac:(assumption) it cv (snd (rw p k e))) as [-> _]; auto. use_hs.
+    + intros -> n i. dlet; nrm; simpl. rewrite (mem_name_tmp cv n (KPos i)) by assumption. simpl.
+      rewrite H by (auto; discriminate). simpl.
+      destruct (H0 ltac:(assumption) false cv (snd (rw p k e))) as [_ ->]; auto.
+  - (* KNil *) split; auto.
+  - (* KCons *) bsplit. split.
+    + intros Hh. dlet; nrm; simpl. rewrite H by (auto; use_hs).
+      destruct (H0 ltac:(assumption) it cv (snd (rw p k0 e))) as [-> _]; auto. use_hs.
+    + intros -> n. dlet; nrm; simpl. rewrite (mem_name_tmp cv n (KKw k)) by assumption. simpl.
+      rewrite H by (auto; discriminate). simpl.
+      destruct (H0 ltac:(assumption) false cv (snd (rw p k0 e))) as [_ ->]; auto.
+Qed.
+
+Lemma valid_rw : forall p e k, dom p e = true -> valid e = true -> site_in_iter p e = false -> valid (fst (rw p k e)) = true.
+Proof. intros p e k Hd Hv Hs. apply (proj1 (valid_rw_all p) e Hd false [] k); auto. discriminate. Qed.
